@@ -827,8 +827,10 @@ class PerceptionAnalyzerBase(ABC):
             return None
 
         target_labels: List[str] = self.target_labels.copy()
-        if "unknown" not in target_labels:
-            target_labels.append("unknown")
+        # NOTE: estimations may be unknown, and GTs of matched FPs in FP validation are labeled as false_positive
+        for extra_label in ("unknown", "false_positive"):
+            if extra_label not in target_labels:
+                target_labels.append(extra_label)
 
         gt_indices: np.ndarray = gt_df["label"].apply(lambda label: target_labels.index(label)).to_numpy()
         est_indices: np.ndarray = est_df["label"].apply(lambda label: target_labels.index(label)).to_numpy()
